@@ -21,3 +21,40 @@ def c03_attribution(f, data, n, i, observed, rel=0.0):
         # (a NaN-tainted prediction leaves the defect's outcome undetermined: min/max with NaN)
         return 'D-past-over-future'
     return None
+
+
+def normalise_signals(sig):
+    """Restrict every signal to the common domain [start, inf) and shift time so that start = 0."""
+    from rtverif import ref_dense
+    start = max(s[0][0] for s in sig.values())
+    out = {}
+    for k, s in sig.items():
+        st = ref_dense.from_samples(s, start)
+        out[k] = [(t - start, v) for t, v in st.pairs()]
+    return out, start
+
+
+def c04_attribution(f, sig, mech, out, detail, rel=0.0):
+    """D-dense-origin: constants are emitted from absolute time 0 and bounded operators anchor at
+    their operand's own first stamp, so on inputs that do not all start at time 0 the result may
+    start before the common domain and bounded past operators may be wrong near the start.
+    Attributed only if (precondition) the inputs are not already 'normalised' (all first stamps
+    equal 0) AND (defect model) the real monitor is right on the normalised inputs."""
+    from rtverif import drive, ref_dense, ref_discrete, lang
+    firsts = set(s[0][0] for s in sig.values())
+    if firsts == set([0]):
+        return None
+    if mech not in ('value', 'origin'):
+        return None
+    nsig, start = normalise_signals(sig)
+    names = sorted(nsig)
+    try:
+        exp = ref_dense.evaluate(f, nsig)
+        res = drive.Mon('ct', {'text': lang.to_text(f), 'vars': names}).evaluate(*drive.ct_args(nsig, names))
+    except Exception:
+        return None
+    end = min(s[-1][0] for s in nsig.values())
+    same = lambda a, b: ref_discrete.same(a, b, rel)
+    if res and ref_dense.compare(exp, res, 0, end, same) is None and res[0][0] == 0:
+        return 'D-dense-origin'
+    return None
